@@ -134,7 +134,7 @@ def gen_x0(rng, dom, shape, cplx):
     return a
 
 
-def gen_case(rng, tier, name=None):
+def gen_case(rng, tier, name=None, cplx=None):
     name = name or rng.choice(sorted(TABLE))
     e = TABLE[name]
     Dmax = 6 if tier == 'quick' else 9
@@ -143,7 +143,7 @@ def gen_case(rng, tier, name=None):
         D = min(D, 6)
     P = rng.choice([1, 1, 2, 3])
     shape = rand_shape(rng, 2 if tier == 'quick' else 3, 3)
-    cplx = e['cplx'] and rng.random() < 0.25
+    cplx = (e['cplx'] and rng.random() < 0.25) if cplx is None else (bool(cplx) and e['cplx'])
     sparse = rng.choice([0.0, 0.0, 0.3, 0.7, 1.0])
     x = rand_coeffs(rng, (D, P) + shape, -1.0, 1.0, sparse=sparse, cplx=cplx)
     x[0] = gen_x0(rng, e['dom'], (P,) + shape, cplx)
@@ -242,9 +242,14 @@ def nontrivial(case):
 def run(ctx):
     n = 300 if ctx.tier == 'quick' else 6000
     names = sorted(TABLE)
-    for i in range(n):
-        name = names[i % len(names)] if i < 2 * len(names) else None
-        case = gen_case(ctx.rng, ctx.tier, name)
+    # every function gets real cases, and every complex-capable function complex ones, on every run
+    plan = []
+    for rep in range(3):
+        plan += [(nm, False) for nm in names]
+        plan += [(nm, True) for nm in names if TABLE[nm]['cplx']]
+    for i in range(max(n, len(plan))):
+        name, cp = plan[i] if i < len(plan) else (None, None)
+        case = gen_case(ctx.rng, ctx.tier, name, cp)
         ctx.evaluations += 1
         ctx.count('fn=' + case['fn'], 'D=%d' % case['D'], 'P=%d' % case['P'], 'ndim=%d' % len(case['shape']),
                   'cplx' if case['cplx'] else 'real')
